@@ -74,6 +74,11 @@ def _loop_specs(u):
     return {"%s:%s#%d" % k: v for k, v in u.loops.items()}
 
 
+def loader_BindingError():
+    from . import loader
+    return loader.BindingError
+
+
 def run_conc(u, params, given=None, rng=None, timeout=None):
     """one concrete execution against the really imported module (60 s unless the unit function declares
     `conc_timeout`, e.g. a whole javac/java batch)"""
@@ -99,6 +104,10 @@ def run_conc(u, params, given=None, rng=None, timeout=None):
     except Unsupported as e:
         res["status"] = "unsupported"
         res["error"] = str(e)
+    except loader_BindingError() as e:
+        # the contract names a function / pattern that is not in the changed source: nothing can be executed (undecided)
+        res["status"] = "unsupported"
+        res["error"] = "unbound: %s" % e
     except Exception:
         res["status"] = "crash"
         res["error"] = traceback.format_exc()
